@@ -67,9 +67,13 @@ def run(rep: Report, prog: Program, tier: str) -> None:
     rep.rule("R18.1", "totality: no operation of the built-in strategies can raise on the input domain")
     funcs = [
         f"{ST}:decorrelated_jitter.<locals>.f", f"{ST}:equal_jitter.<locals>.f", f"{ST}:token_backoff.<locals>.f", f"{ST}:retry_after_or.<locals>.f",
-        f"{ST}:AdaptiveStrategy.__call__", f"{ST}:AdaptiveStrategy._multiplier", f"{ST}:AdaptiveStrategy._record", f"{ST}:AdaptiveStrategy._prune",
+        f"{ST}:AdaptiveStrategy.__call__", f"{ST}:AdaptiveStrategy._multiplier",
         f"{ST}:AdaptiveStrategy.record_success", f"{ST}:AdaptiveStrategy.record_failure",
     ]
+    # plus whatever private helpers the class has today (extracted or inlined helpers change nothing)
+    for mname, mfi in prog.cls(f"{ST}:AdaptiveStrategy").methods.items():
+        if mfi.qual not in funcs and not (mname.startswith("__") and mname.endswith("__")):
+            funcs.append(mfi.qual)
     n_ops = 0
     results = {}
     for q in funcs:
